@@ -9,7 +9,10 @@
    A result is (row axis dropped, column axis dropped, #columns, cells by row). *)
 From Coq Require Import ZArith List Bool Lia.
 From IBL.lib Require Import PyInt.
-From IBL.C01 Require Import Model Proofs.
+From IBL.C01 Require Import Model Proofs Geometry AlignProofs SyncProofs.
+Require IBL.C08.Model IBL.C08.Proofs IBL.C08.Props.
+Require IBL.C03.F32.
+From Coq Require Import Permutation.
 Import ListNotations.
 Open Scope Z_scope.
 
@@ -147,6 +150,58 @@ Theorem C01_cbin_eq_bin :
   read cal (Some bounds) raw nc order gain nsel csel = read cal None raw nc order gain nsel csel.
 Proof. intros A G V. exact (@cbin_read_eq A G V). Qed.
 Print Assumptions C01_cbin_eq_bin.
+
+(* SORTED ALIGNMENT (joint with C08: IBL.C08.Model.geometry is C08's model of
+   geometry_from_meta(return_index=True), reader_order is Reader.__init__'s
+   `raw_channel_order = arange(nc); raw_channel_order[:order.size] = order`).
+   The channel order is no longer data.  For every probe generation, encoding, site
+   table with at most nc entries, NP2.4_shank key, recording and gains, sorting ON:
+   - raw_channel_order exists, has nc valid entries, is a permutation of the on-disk
+     channels; entry i < #sites is the geometry index inds[i]; the remaining (sync)
+     columns stay in place;
+   - every column of the reader's (sorted) geometry is the unsorted column re-indexed
+     by the same inds: entry i describes on-disk site inds[i];
+   - the sorted geometry is ordered by shank, then row, then descending column (ties:
+     recording order);
+   - the calibrated array M in that order exists, its cell (i, j) is
+     cal(raw[i][order[j]], gain[order[j]]), and every read (selectors as in
+     C01_read_eq_np_index) is NumPy indexing of M.
+   Sorting OFF: the geometry index is arange and raw_channel_order is the identity. *)
+Theorem C01_sorted_alignment :
+  forall (A G V : Type) (cal : A -> G -> V) g e sites split t' inds raw ns nc gain,
+  G8.geometry g e sites split true = Some (t', inds) ->
+  zlen inds <= nc -> rect raw ns nc -> zlen gain = nc ->
+  exists order t M,
+    reader_order nc (Some inds) = Some order /\
+    order_ok order nc /\ Permutation order (zrange (Z.to_nat nc)) /\
+    (forall i, 0 <= i < Z.of_nat (G8.gsize t) -> zget order i = Some (G8.znth inds i)) /\
+    (forall i, Z.of_nat (G8.gsize t) <= i < nc -> zget order i = Some i) /\
+    G8.geometry g e sites split false = Some (t, zrange (G8.gsize t)) /\
+    reader_order nc (Some (zrange (G8.gsize t))) = Some (zrange (Z.to_nat nc)) /\
+    G8.columns t' = map (G8.gather inds) (G8.columns t) /\
+    (forall i j, 0 <= i -> i < j -> j < Z.of_nat (G8.gsize t') ->
+       P8.ordered_at (G8.g_shank t') (G8.g_row t') (G8.g_col t') (G8.g_ind t') i j) /\
+    calibrated_sorted cal raw order gain = Some M /\
+    (forall i j v,
+       (exists Mrow, zget M i = Some Mrow /\ zget Mrow j = Some v) <->
+       (exists row c a gn, zget raw i = Some row /\ zget order j = Some c /\
+                           zget row c = Some a /\ zget gain c = Some gn /\ v = cal a gn)) /\
+    (forall nsel csel, is_fancy nsel && is_fancy csel = false ->
+       ((exists x, sel_positions ns nsel = Ok x) \/ (exists x, sel_positions nc csel = Ok x)) ->
+       read cal None raw nc order gain nsel csel = np_index2 M ns nc nsel csel).
+Proof. intros A G V. exact (@sorted_alignment A G V). Qed.
+Print Assumptions C01_sorted_alignment.
+
+(* SYNC UNSCALED (Flocq binary32, exhaustive over all 65 536 int16 values; the sweep
+   is SyncSweep.v): float32(x) * 1.0f has the class, sign, mantissa and exponent of
+   float32(x) — the sync word is returned bit for bit — and the C cast back to an
+   integer gives x. *)
+Theorem C01_sync_unscaled : forall x, -32768 <= x <= 32767 ->
+  IBL.C03.F32.f32_parts (IBL.C03.F32.sample2v IBL.C03.F32.gain_one x)
+    = IBL.C03.F32.f32_parts (IBL.C03.F32.z32 x) /\
+  IBL.C03.F32.trunc32 (IBL.C03.F32.sample2v IBL.C03.F32.gain_one x) = x.
+Proof. exact sync_unscaled_all. Qed.
+Print Assumptions C01_sync_unscaled.
 
 (* ---- refuted clauses (faithful model; confirmed on the real code, see notes) ---- *)
 Definition ex_raw : list (list (Z * Z)) :=
